@@ -49,17 +49,19 @@ Definition has_result (u : uop) : bool :=
   | _ => false
   end.
 
-Definition unit_case := list (uop * bool * list dump_entry).
+(* the dump is None when the harness saw the same paths map as after the previous operation *)
+Definition unit_case := list (uop * bool * option (list dump_entry)).
 
-Fixpoint unit_run (s : paths) (c : unit_case) : bool :=
+Fixpoint unit_run (s : paths) (last : list dump_entry) (c : unit_case) : bool :=
   match c with
   | [] => true
-  | (u, res, d) :: c' =>
+  | (u, res, od) :: c' =>
       let '(s', r) := ustep s u in
-      (if has_result u then Bool.eqb r res else true) && dump_ok s' d && unit_run s' c'
+      let d := match od with Some d => d | None => last end in
+      (if has_result u then Bool.eqb r res else true) && dump_ok s' d && unit_run s' d c'
   end.
 
-Definition unit_ok (c : unit_case) : bool := unit_run [] c.
+Definition unit_ok (c : unit_case) : bool := unit_run [] [] c.
 
 (* ---------------------------------------------------------------- (b) end to end *)
 
